@@ -1,9 +1,12 @@
 /-
 C13 — model of `src/streaming/watermark.rs`:
-`WatermarkGenerator` (BoundedOutOfOrder, MonotonicAscending, Custom), `LateDataHandler`
+`WatermarkGenerator` (BoundedOutOfOrder, MonotonicAscending, Custom, Periodic), `LateDataHandler`
 (Drop, AllowedLateness, SideOutput, RecomputeWindows) and `WatermarkedStream::add_event`.
 Timestamps are `Nat` (u64 milliseconds; `saturating_sub` is `Nat` subtraction).
-The `Periodic` strategy reads the processing-time clock and is outside the model.
+The `Periodic` strategy reads the processing-time clock: every event carries the reading `now`
+(milliseconds) the generator's clock shows when the event is offered — an arbitrary number, the
+clock may stand still or run backwards — and the state keeps `last_emission` (the generator is
+created at reading 0). The correspondence injects the same readings through the `rre_verif` clock hook.
 -/
 namespace C13
 
@@ -11,6 +14,7 @@ inductive WmStrategy where
   | bounded (delay : Nat)
   | monotonic
   | custom
+  | periodic (interval : Nat)
 deriving Repr, DecidableEq
 
 inductive LateStrategy where
@@ -24,6 +28,7 @@ deriving Repr, DecidableEq
 structure Ev where
   id : Nat
   ts : Nat
+  now : Nat      -- processing-time clock reading at arrival (read by `Periodic` only)
 deriving Repr, DecidableEq
 
 structure St where
@@ -35,16 +40,24 @@ structure St where
   late : Nat := 0
   dropped : Nat := 0
   allowed : Nat := 0
+  lastEm : Nat := 0             -- `WatermarkGenerator::last_emission` (processing time, ms)
 deriving Repr, DecidableEq
 
 def init : St := {}
 
 /-- `maybe_generate_watermark`: the candidate timestamp of the strategy -/
-def candidate (w : WmStrategy) (maxTs : Nat) : Option Nat :=
+def candidate (w : WmStrategy) (maxTs : Nat) (fires : Bool) : Option Nat :=
   match w with
   | .bounded d => some (maxTs - d)
   | .monotonic => some maxTs
   | .custom => none
+  | .periodic _ => if fires then some maxTs else none
+
+/-- `Periodic`: `now.duration_since(last_emission).ok()?` succeeded and `elapsed >= interval` -/
+def periodicFires (w : WmStrategy) (last now : Nat) : Bool :=
+  match w with
+  | .periodic iv => decide (last ≤ now) && decide (iv ≤ now - last)
+  | _ => false
 
 /-- `LateDataHandler::handle_late_event` together with the match in `add_event` -/
 def handleLate (l : LateStrategy) (s : St) (e : Ev) : St :=
@@ -58,17 +71,21 @@ def handleLate (l : LateStrategy) (s : St) (e : Ev) : St :=
   | .recompute => { s with allowed := s.allowed + 1, events := s.events ++ [e] }
 
 /-- `maybe_generate_watermark`: the watermark after seeing `maxTs` (it only ever advances) -/
-def newWm (w : WmStrategy) (wm maxTs : Nat) : Nat :=
-  match candidate w maxTs with
+def newWm (w : WmStrategy) (wm maxTs : Nat) (fires : Bool) : Nat :=
+  match candidate w maxTs fires with
   | some c => if c > wm then c else wm
   | none => wm
 
 /-- the on-time branch of `add_event`: push, `process_event`, record an emitted watermark -/
 def handleOnTime (w : WmStrategy) (s : St) (e : Ev) : St :=
   let maxTs := if e.ts > s.maxTs then e.ts else s.maxTs
-  let wm' := newWm w s.wm maxTs
+  let fires := periodicFires w s.lastEm e.now
+  let wm' := newWm w s.wm maxTs fires
   { s with events := s.events ++ [e], maxTs := maxTs, wm := wm',
-           history := if wm' > s.wm then s.history ++ [wm'] else s.history }
+           history := if wm' > s.wm then s.history ++ [wm'] else s.history,
+           -- `last_emission = now` is written whenever the interval has elapsed, also when the
+           -- watermark then does not advance
+           lastEm := if fires then e.now else s.lastEm }
 
 /-- `WatermarkedStream::add_event` -/
 def step (w : WmStrategy) (l : LateStrategy) (s : St) (e : Ev) : St :=
